@@ -22,17 +22,18 @@ Inductive index := Idx (i : Z) | Slice (start stop step : option Z).
 (* Chunk(s): atts default to the empty dictionary; no parsing *)
 Definition plain_chunk (s : str) : chunk := mkChunk s no_atts.
 
-(* "\x1b[" in s *)
+(* "\x1b[" in s or "\x9b" in s : the guard of FmtStr.from_str *)
 Fixpoint has_esc_intro (s : str) : bool :=
   match s with
   | [] => false
-  | c :: r => match r with
+  | c :: r => N.eqb c 155 ||
+              match r with
               | d :: _ => (N.eqb c 27 && N.eqb d 91) || has_esc_intro r
               | [] => false
               end
   end.
 
-(* fmtstr(s) for a str s with  "\x1b[" not in s : FmtStr.from_str takes its last
+(* fmtstr(s) for a str s with neither "\x1b[" nor the 8-bit CSI "\x9b" in s : FmtStr.from_str takes its last
    branch, FmtStr(Chunk(s)), and copy_with_new_atts() with no attributes copies
    the run.  The parsing branch of from_str is the subject of C05/C17; every
    theorem that goes through [fmtstr_plain] states [has_esc_intro s = false]. *)
